@@ -37,12 +37,13 @@ def text_bytes(rng, n, high_bias=0.3, letters=True):
 RECORD_LETTERS = b"HPORCQML"
 
 
-def record_text(rng, n_records=None, letter_first=True):
-    """text of a message: records joined by CR; each record starts with a record letter"""
+def record_text(rng, n_records=None, letter_first=True, big=False):
+    """text of a message: records joined by CR; each record starts with a record letter.
+    big: some records of several hundred bytes (frames beyond the 247 bytes of E1381, as LIS01-A2 instruments send)"""
     k = n_records if n_records is not None else rng.choice([1, 1, 2, 3])
     recs = []
     for i in range(k):
-        body = text_bytes(rng, rng.choice([0, 1, 3, 8, 20, 60]))
+        body = text_bytes(rng, rng.choice([0, 1, 3, 8, 20, 60] + ([241, 300, 700] if big else [])))
         letter = bytes([rng.choice(RECORD_LETTERS)]) if letter_first else b""
         recs.append(letter + b"|" + body if letter else body)
     return CR.join(recs)
@@ -78,6 +79,24 @@ def corrupt(rng, fr, region=None):
     """change one byte of the content (frame number, text, terminator) or of the checksum characters
     to a different value; returns (corrupted, pos, newbyte)"""
     body_end = len(fr.rstrip(b"\r\n"))
+    if region is None and rng.random() < 0.25:
+        # damage that is not a substitution: a doubled start byte (the checksum then covers only the tail), an
+        # inserted or a lost byte, a frame cut short
+        kind = rng.choice(["dup-stx", "insert", "delete", "truncate", "truncate-short"])
+        if kind == "dup-stx":
+            return STX * rng.choice([1, 1, 2]) + fr, 0, 2
+        if kind == "insert":
+            pos = rng.randrange(1, body_end + 1)
+            new = rng.randrange(256)
+            return fr[:pos] + bytes([new]) + fr[pos:], pos, new
+        if kind == "delete" and body_end > 4:
+            pos = rng.randrange(1, body_end)
+            return fr[:pos] + fr[pos + 1:], pos, -1
+        if kind == "truncate-short":
+            k = rng.randrange(1, 5)
+            return fr[:k] + rng.choice([b"", b"\r\n"]), k, -1
+        k = rng.randrange(1, max(2, body_end))
+        return fr[:k], k, -1
     if region == "checksum":
         pos = rng.randrange(body_end - 2, body_end)
     elif region == "content":
